@@ -623,20 +623,43 @@ func rulesAtSearch(c *Ctx, r *Report, at *ssa.Function) {
 		return false
 	}
 	nNonNil := 0
+	// the returns, a result variable merged before one return taken apart into the ways it is assigned
+	type retWay struct {
+		rt    *ssa.Return
+		val   ssa.Value
+		guard string
+	}
+	var ways []retWay
 	instrs(at, func(in ssa.Instruction) {
 		rt, ok := in.(*ssa.Return)
-		if !ok {
+		if !ok || len(rt.Results) != 1 {
 			return
 		}
-		g := guardOf(s, rt.Block(), nil)
-		if isNilConst(rt.Results[0]) {
-			if g == "(0 == "+sv+")" {
-				okZero = true
+		if phi, ok := rt.Results[0].(*ssa.Phi); ok && phi.Block() == rt.Block() {
+			for i, p := range phi.Block().Preds {
+				g := guardOf(s, p, nil)
+				if eg := edgeCond(s, p, phi.Block()); eg != "" {
+					if g != "" {
+						g += " && "
+					}
+					g += eg
+				}
+				ways = append(ways, retWay{rt, phi.Edges[i], g})
 			}
 			return
 		}
+		ways = append(ways, retWay{rt, rt.Results[0], guardOf(s, rt.Block(), nil)})
+	})
+	for _, w := range ways {
+		rt, g := w.rt, w.guard
+		if isNilConst(w.val) {
+			if g == "(0 == "+sv+")" || g == "!(0 != "+sv+")" {
+				okZero = true
+			}
+			continue
+		}
 		nNonNil++
-		switch v := rt.Results[0].(type) {
+		switch v := w.val.(type) {
 		case *ssa.Call:
 			// a module helper applied to the stored set
 			if gfn := v.Call.StaticCallee(); gfn == nil || !c.inModule(gfn) || len(v.Call.Args) != 1 || !isSet(v.Call.Args[0]) {
@@ -661,7 +684,7 @@ func rulesAtSearch(c *Ctx, r *Report, at *ssa.Function) {
 		default:
 			okPrev = false
 		}
-	})
+	}
 	okPrev = okPrev && len(sets) > 0 && nNonNil > 0
 	r.check(okZero && okPrev, "SEARCH", fname(at), "answer from the preceding breakpoint", c.pos(at.Pos()), "positions before the first breakpoint get nil; otherwise the answer is a copy of the set stored at the breakpoint just before the search result", "At does not answer nil for search result 0 and a copy of idx[at-1].idxs otherwise (a stored set is read at another index, or what is returned is not a copy of that set)")
 }
